@@ -62,6 +62,7 @@ type VConn struct {
 	l        *VLink
 	side     int
 	rdl      time.Time
+	wdl      time.Time // write deadline: like a real socket, a Write at or after it fails even if it would not block
 	rdlTimer *time.Timer
 }
 
@@ -244,6 +245,9 @@ func (c *VConn) Write(b []byte) (int, error) {
 		if l.closed[1-c.side] {
 			return 0, ErrVnetReset // peer has gone: EPIPE / RST
 		}
+		if !c.wdl.IsZero() && !time.Now().Before(c.wdl) {
+			return 0, os.ErrDeadlineExceeded
+		}
 		if l.Bound <= 0 {
 			break
 		}
@@ -338,7 +342,10 @@ func (c *VConn) Close() error {
 func (c *VConn) LocalAddr() net.Addr  { return vaddr{"vnet-local"} }
 func (c *VConn) RemoteAddr() net.Addr { return vaddr{"vnet-remote"} }
 
-func (c *VConn) SetDeadline(t time.Time) error { return c.SetReadDeadline(t) }
+func (c *VConn) SetDeadline(t time.Time) error {
+	c.SetWriteDeadline(t)
+	return c.SetReadDeadline(t)
+}
 
 func (c *VConn) SetReadDeadline(t time.Time) error {
 	n := c.l.n
@@ -364,7 +371,16 @@ func (c *VConn) SetReadDeadline(t time.Time) error {
 	return nil
 }
 
-func (c *VConn) SetWriteDeadline(t time.Time) error { return nil }
+// SetWriteDeadline: a Write that starts at or after t fails (a Write already parked on a full link is not woken by
+// the deadline alone; it re-checks on its next wake-up).
+func (c *VConn) SetWriteDeadline(t time.Time) error {
+	n := c.l.n
+	n.mu.Lock()
+	defer n.mu.Unlock()
+	c.wdl = t
+	n.cond.Broadcast()
+	return nil
+}
 
 // ------------------------------------------------------------------------------------- listener/dialer
 
